@@ -78,6 +78,7 @@ func (o *Operations) Delete(name string) error {
 		}
 
 		hdr.Size = 0 // Don't try to seek after the record
+		hdr.Format = tar.FormatPAX // The STFS records below need PAX, whatever format the entry was archived in
 		hdr.PAXRecords[records.STFSRecordVersion] = records.STFSRecordVersion1
 		hdr.PAXRecords[records.STFSRecordAction] = records.STFSRecordActionDelete
 
